@@ -144,7 +144,18 @@ def main():
             if s is not None and not same(s, base):
                 V.violation(f'sample-only:Y={c["y"]} X={c["x"]} r={c["rnum"]}/8 c={c["c"]}',
                             f'score changed from {base!r} to {s!r} when Y was altered outside the sampled rows {c["S"]}: Y2={rq[0]}', {'case': c, 'y2': rq[0]})
-        V.count(evaluations=len(cases) * 10 + len(areq), nontrivial=nontriv, traces=len(cases) + len(areq))
+        # (3b) the same clause through the dispatcher importance_estimator.numba_mi (what the pipeline calls with
+        # --mi_stratified_sampling_ratio): every altered pair whose feature is constant, plus a sample of the others
+        pick = [k_ for k_, (i_, rq_) in enumerate(zip(ameta, areq)) if len(set(cases[i_]['y'])) == 1 or rng.random() < (0.03 if tier == 'quick' else 0.1)]
+        hname = lambda cf: 'MI-numba-randomized' if cf else 'MI-numba'
+        nb_base, _ = MC.real_eval('numba_mi', [[cases[ameta[k_]]['y'], cases[ameta[k_]]['x'], hname(areq[k_][3]), areq[k_][2]] for k_ in pick])
+        nb_alt, _ = MC.real_eval('numba_mi', [[areq[k_][0], areq[k_][1], hname(areq[k_][3]), areq[k_][2]] for k_ in pick])
+        for k_, sb, sa in zip(pick, nb_base, nb_alt):
+            c = cases[ameta[k_]]
+            if sb is not None and sa is not None and not same(sa, sb):
+                V.violation(f'sample-only:by-name:Y={c["y"]} X={c["x"]} r={c["rnum"]}/8 heuristic={hname(areq[k_][3])}',
+                            f'numba_mi changed from {sb!r} to {sa!r} when Y was altered outside the sampled rows {c["S"]}: Y2={areq[k_][0]}', {'case': c, 'y2': areq[k_][0]})
+        V.count(evaluations=len(cases) * 10 + len(areq) + 2 * len(pick), nontrivial=nontriv, traces=len(cases) + len(areq))
         k = next(i for i, c in enumerate(cases) if len(c['S']) < len(c['y']) and c['c'] and len(set(c['x'])) > 1)
         V.add_sample({'family': label, **cases[k], 'real_scores': [g[k] for g in runs3 if g[k] is not None]})
 
